@@ -129,3 +129,75 @@ def r_plugin_parser_decisions(r, prog):
     else:
         r.ok('no parsed argument is removed again')
     r.floor(3)
+
+
+def r_expression_truth_table(r, prog):
+    """Not / And / Or / parentheses / symbols evaluate as `!`, `&&`, `||`, the inner expression, membership in the defined symbols."""
+    P = 'slicec::parsers::preprocessor::grammar::'
+    ex = prog.fn(P + "Expression::<'_>::evaluate")
+    tm = prog.fn(P + "Term::<'_>::evaluate")
+
+    def returns(f):
+        out = []
+        for d in f.defs_of(0):
+            if f.blocks[d[1]].get('cleanup'):
+                continue
+            if d[0] == 'assign':
+                rv = d[3]
+                if rv['k'] == 'use':
+                    val = vexpr(f, rv['a'], depth=12)
+                elif rv['k'] == 'un':
+                    val = '%s(%s)' % (rv['op'], vexpr(f, rv['a'], depth=12))
+                else:
+                    val = rv['k']
+            else:
+                c = d[3]
+                val = '%s(%s)' % (c.name(), ','.join(vexpr(f, a, depth=12) for a in c.args))
+            out.append((val, guards.guard_set(prog, f, d[1])))
+        return out
+    ev = lambda x: r'evaluate\(arg1 as %s(\.pointer)?,arg2\)' % x
+    want = [
+        ('Term', r'^' + ev(r'Term\.0') + '$', [r'^arg1 is Term$']),
+        ('Not', r'^Not\(' + ev(r'Not\.0') + r'\)$', [r'^arg1 is Not$']),
+        ('And (left false)', r'^0$', [r'^arg1 is And$', r'^!\(' + ev(r'And\.0\.0') + r'\)$']),
+        ('And (left true)', r'^' + ev(r'And\.1') + '$', [r'^arg1 is And$', r'^' + ev(r'And\.0\.0') + '$']),
+        ('Or (left true)', r'^1$', [r'^arg1 is Or$', r'^' + ev(r'Or\.0\.0') + '$']),
+        ('Or (left false)', r'^' + ev(r'Or\.1') + '$', [r'^arg1 is Or$', r'^!\(' + ev(r'Or\.0\.0') + r'\)$']),
+    ]
+    got = returns(ex)
+    for name, vpat, gpats in want:
+        hit = [(v, g) for v, g in got if re.match(vpat, v) and len(g) == len(gpats) and all(any(re.match(p_, x) for x in g) for p_ in gpats)]
+        if len(hit) == 1:
+            r.ok('Expression %s -> %s' % (name, hit[0][0][:40]))
+        else:
+            r.finding('expression-semantics:%s' % name.split(' ')[0], ex.span, 'Expression::evaluate does not compute %s as prescribed; its results are %s' % (name, [(v[:50], g) for v, g in got]))
+    if len(got) != len(want):
+        r.finding('expression-semantics:extra-results', ex.span, 'Expression::evaluate has %d ways to produce a result, the grammar of conditions has %d' % (len(got), len(want)))
+    gt = returns(tm)
+    wt = [('Symbol', r'^contains\(arg2,arg1 as Symbol\.0\)$', [r'^arg1 is Symbol$']), ('Expression', r'^' + ev(r'Expression\.0\.0') + '$', [r'^arg1 is Expression$'])]
+    for name, vpat, gpats in wt:
+        hit = [(v, g) for v, g in gt if re.match(vpat, v) and len(g) == len(gpats) and all(any(re.match(p_, x) for x in g) for p_ in gpats)]
+        if len(hit) == 1:
+            r.ok('Term %s -> %s' % (name, hit[0][0][:40]))
+        else:
+            r.finding('term-semantics:%s' % name, tm.span, 'Term::evaluate does not compute %s as prescribed; its results are %s' % (name, [(v[:50], g) for v, g in gt]))
+    r.floor(8)
+
+
+def r_unescape_machine(r, prog):
+    """unescape_string_literal drops a backslash exactly when it is not itself escaped (the machine read_string_literal uses to find the closing quote)."""
+    cls = [f for f in prog.fns.values() if f.path.startswith('slicec::parsers::slice::grammar::unescape_string_literal::{closure')]
+    if len(cls) != 1:
+        raise AnchorMissing('the filter closure of unescape_string_literal')
+    f = cls[0]
+    ret = vexpr(f, {'cp': {'l': 0}}, depth=12)
+    stores = [vexpr(f, rv['a'], depth=12) for bb, j, lhs, rv, s in f.assigns() if lhs.get('p') and rv['k'] == 'use' and not f.blocks[bb].get('cleanup')]
+    esc = r'phi\(0\|Not\(arg1\.0\)\)'
+    if re.match(r'^Not\(' + esc + r'\)$', ret) and any(re.match('^' + esc + '$', x) for x in stores):
+        gs = [g for b in range(len(f.blocks)) for g in guards.guard_set(prog, f, b) if re.search(r'92', g)]
+        if gs:
+            r.ok('a character is dropped iff it is a backslash and the previous one was not an unescaped backslash; the flag is updated with the same value')
+            r.floor(1)
+            return
+    r.finding('unescape-machine', f.span, 'the unescape filter returns %s and stores %s: expected keep = !(c == backslash && !escaped), escaped := (c == backslash && !escaped)' % (ret, stores))
+    r.floor(1)
